@@ -64,7 +64,7 @@ type Case struct {
 	Next       int    `json:"next,omitempty"`
 	// stdio
 	Frames []Frame `json:"frames,omitempty"`
-	Exit   bool    `json:"exit,omitempty"` // the peer exits after the script (a later call cannot be answered)
+	Exit   bool    `json:"exit,omitempty"` // the peer closes its stdout after the script (a later call cannot be answered)
 }
 
 func expand(txt string, pad int) string {
